@@ -4,7 +4,7 @@ from ..gen import f32bits as FB
 from . import _scene
 
 CFG = dict(nops=10, maxdim=10, init="random", p_clip=0.2, p_layer=0.06, p_structured=0.25, sources=["solid", "image"],
-           curves=0.3, p_zero_dim=0.0)
+           curves=0.3, p_zero_dim=0.0, p_clipstack=0.3)
 RULE = ("random histories of 1..10 calls on one DrawTarget incl. no-op draws (empty, off-surface, zero-area shapes, singular "
         "transforms, zero width), off-surface clip pushes, paths starting with LineTo/Close and shapes of very different "
         "vertical extent; after every call (a) the hook verif_rasterizer_idle must report an idle rasteriser, (b) the call is "
